@@ -139,12 +139,12 @@ def idlerArg (ns np ls lp thetaS : α) (pp : Poling α) : α :=
   let a := np * (ls / lp)
   ns * ns + a * a + (2.0 : α) * (k * nsz - a * nsz - k * a) + k * k
 
-/-- the un-normalised idler polar angle of `try_new_optimum` -/
+/-- the un-normalised idler polar angle of `try_new_optimum`.  `val` carries the sign of `θ_s`
+through `sin θ_s` (the former extra factor `signum(θ_s)` was removed by the D90 repair). -/
 def idlerThetaRaw (i : IdlerIn α) : α :=
   let val := i.ns * Transc.sin i.thetaS / Transc.sqrt (idlerArg i.ns i.np i.ls i.lp i.thetaS i.pp)
-  let sign : α := if i.thetaS < (0.0 : α) then -(1.0 : α) else (1.0 : α)
   let back := xor (decide (Transc.cos i.thetaS < (0.0 : α))) i.cp
-  (if back then Transc.pi - Transc.asin val else Transc.asin val) * sign
+  if back then Transc.pi - Transc.asin val else Transc.asin val
 
 /-- the idler vacuum wavelength `ls * lp / (ls - lp)` -/
 def idlerLambda (ls lp : α) : α := ls * lp / (ls - lp)
